@@ -35,6 +35,7 @@ class Deadlock(Exception):
 
 class SimThread:
     __slots__ = ("idx", "fn", "baton", "state", "own", "dep", "total", "cd_all", "cd_own", "cd_dep", "cd_hot",
+                 "cd_focus", "focus",
                  "untraced", "error", "prio", "cps", "thread", "result", "hot_hits", "waiting_on")
 
     def __init__(self, idx: int, fn: Callable[["SimThread"], Any]) -> None:
@@ -50,6 +51,8 @@ class SimThread:
         self.cd_own = INF
         self.cd_dep = INF
         self.cd_hot = INF
+        self.cd_focus = INF
+        self.focus = 0
         self.untraced = 0
         self.error: Optional[BaseException] = None
         self.prio = 0.0
@@ -179,12 +182,14 @@ class PCT(Policy):
             self._arm(t)
 
     def _arm(self, t: SimThread) -> None:
-        cur = t.own if self.space == "own" else t.dep
+        cur = {"own": t.own, "dep": t.dep, "focus": t.focus}[self.space]
         while t.cps and t.cps[0] <= cur:
             t.cps.pop(0)
         nxt = (t.cps[0] - cur) if t.cps else INF
         if self.space == "own":
             t.cd_own = nxt
+        elif self.space == "focus":
+            t.cd_focus = nxt
         else:
             t.cd_dep = nxt
 
@@ -279,6 +284,7 @@ class Scheduler:
         self.overlap_seen = False  # >= 2 threads inside a parse at the same time
         self.total_steps = 0
         self.opcodes = 0
+        self.broken: Optional[str] = None
 
     # ------------------------------------------------------------ tracing
     def _kind(self, filename: str) -> int:
@@ -373,17 +379,21 @@ class Scheduler:
         if th is None or th.untraced:
             return
         th.own += 1
+        th.focus += 1
         th.total += 1
         th.cd_all -= 1
         th.cd_own -= 1
-        if th.cd_all <= 0 or th.cd_own <= 0:
-            self._decide(th, "own" if th.cd_own <= 0 else "all")
+        th.cd_focus -= 1
+        if th.cd_all <= 0 or th.cd_own <= 0 or th.cd_focus <= 0:
+            self._decide(th, "focus" if th.cd_focus <= 0 else ("own" if th.cd_own <= 0 else "all"))
 
     # ------------------------------------------------------------ switching
     def runnable(self) -> List[int]:
         return [t.idx for t in self.threads if t.state == "ready"]
 
     def _decide(self, th: SimThread, space: str) -> None:
+        if th.thread is not None and th.thread.ident != _thread.get_ident():
+            self.broken = f"decision for T{th.idx} taken on another OS thread: two threads ran at once"
         if th.total > self.step_cap:
             if self.on_abort:
                 self.on_abort("stepcap")
@@ -404,7 +414,13 @@ class Scheduler:
         # resumed: whoever released us has set self.cur = th
 
     def forced_switch(self, th: SimThread) -> None:
-        """th cannot continue (finished or blocked): hand the baton on."""
+        """th cannot continue (finished or blocked): hand the baton on.
+        Whether th parks afterwards is decided *before* the baton is released: once the target runs it may
+        release the lock th waits for and flip th.state to 'ready' while th is still on its way to park
+        (seen once under heavy machine load as two threads running at the same time)."""
+        must_park = th.state == "blocked"
+        if th.thread is not None and th.thread.ident != _thread.get_ident():
+            self.broken = f"forced switch for T{th.idx} executed on another OS thread"
         r = self.runnable()
         if not r:
             if any(t.state == "blocked" for t in self.threads):
@@ -413,7 +429,7 @@ class Scheduler:
                     for t in self.threads)
             self.cur = None
             self.done.release()
-            if th.state == "blocked":
+            if must_park:
                 th.baton.acquire()  # parked for good; the run is over (daemon thread)
             return
         target = self.policy.forced(self, r)
@@ -421,7 +437,7 @@ class Scheduler:
         tt = self.threads[target]
         self.cur = tt
         tt.baton.release()
-        if th.state == "blocked":
+        if must_park:
             th.baton.acquire()
 
     # ------------------------------------------------------------ running
